@@ -230,6 +230,11 @@ theorem withNode_inv (s : Store) (g nid : String) (k : Nat → R) (hs : Inv s)
   · rename_i i h; exact hk i h
 
 
+theorem assertVal_pred (P : Store → Prop) (v : Val) (s : Store) (k : R) (hs : P s) (hk : P k.2) : P (assertVal v s k).2 := by
+  unfold assertVal; split
+  · exact hs
+  · exact hk
+
 theorem inv_init : Inv init := by
   simp [Inv, init]
 
